@@ -209,3 +209,27 @@ func VHC12Calls() {
 	}
 	vh.Assert(text == want, "C12: the quoted source line is the line of the failing call: "+lbl(c.prog))
 }
+
+var c12First = []string{"$.t == 1 { print 'r' }", "$.n() { print 'r' }", "[1, 2] > $.n { print 'r' }", "$.n.k.j() { print 'r' }"}
+
+// VHC12FirstByte: a fault in a rule pattern that begins at the very first byte of the
+// program (or of a later line) is reported with that line and a column inside the pattern.
+func VHC12FirstByte() {
+	pat := c12First[vh.Choose("pat", len(c12First))]
+	before := vh.Choose("before", 3)
+	prog := ""
+	for i := 0; i < before; i++ {
+		prog += "# a comment line\n"
+	}
+	prog += pat + "\nEND { print 'end' }"
+	var out vh.Out
+	doc := map[string]any{"t": []any{1.0}, "n": 5.0}
+	_, err := lang.EvalProgram(prog, []lang.InputFile{{Name: "f", Reader: &vh.DocStream{Items: []any{doc}}}}, nil, &out, false)
+	k := legal(err, "EvalProgram")
+	line, col, text := posOf(err)
+	vh.Reach("leading pattern fault reported")
+	vh.Assert(k == ErrRuntime, "C12: the pattern fails at run time: "+pat)
+	vh.Assert(line == before+1, "C12: a fault at the first byte of a line is reported on that line: "+pat)
+	vh.Assert(text == pat, "C12: the quoted source line is that line: "+pat)
+	vh.Assert(col >= 0 && col < len(pat)-14, "C12: the column lies inside the pattern: "+pat)
+}
